@@ -87,6 +87,12 @@ template<size_t m, size_t k, size_t n> static void own_matmul() {
         if (!ok) fail("matmul", "value", m * 10000 + k * 100 + n, front); else ++n_ok;
         VH_GUARDED_CALL(({ *c.t += (*a.t) % (*b.t); }), sig);
         if (sig) fail("lazy_matmul_add", "signal", m * 10000 + k * 100 + n, front, sig); else ++n_ok;
+        // the product evaluated straight into the destination object (construction from the expression: no temporary in between)
+        { Own<Tensor<T,m,n>> c2(front, 2); Tensor<T,m,n>* r = nullptr;
+          VH_GUARDED_CALL(({ r = new (c2.g.ptr) Tensor<T,m,n>((*a.t) % (*b.t)); }), sig);
+          if (sig) { fail("matmul_into_destination", "signal", m * 10000 + k * 100 + n, front, sig); continue; }
+          bool ok2 = true; for (size_t i = 0; i < m; ++i) for (size_t j = 0; j < n; ++j) { T e = 0; for (size_t p = 0; p < k; ++p) e += (*a.t)(i, p) * (*b.t)(p, j); if (!close_enough((*r)(i, j), e)) ok2 = false; }
+          if (!ok2) fail("matmul_into_destination", "value", m * 10000 + k * 100 + n, front); else ++n_ok; }
     }
 }
 template<size_t m, size_t n> static void own_2d() {
@@ -96,6 +102,9 @@ template<size_t m, size_t n> static void own_2d() {
         if (sig) fail("transpose", "signal", m * 100 + n, front, sig); else { bool ok = true; for (size_t i = 0; i < m; ++i) for (size_t j = 0; j < n; ++j) if ((*c.t)(j, i) != (*a.t)(i, j)) ok = false; if (!ok) fail("transpose", "value", m * 100 + n, front); else ++n_ok; }
         VH_GUARDED_CALL(({ *c.t = trans(*a.t) + trans(*a.t); *d.t = (*a.t) * (T)2 + sqrt(abs(*a.t)); }), sig);
         if (sig) fail("lazy_trans_expr", "signal", m * 100 + n, front, sig); else ++n_ok;
+        { Own<Tensor<T,n,m>> c2(front, 4); Tensor<T,n,m>* r = nullptr;
+          VH_GUARDED_CALL(({ r = new (c2.g.ptr) Tensor<T,n,m>(trans(*a.t)); }), sig);
+          if (sig) fail("trans_into_destination", "signal", m * 100 + n, front, sig); else { bool ok2 = true; for (size_t i = 0; i < m; ++i) for (size_t j = 0; j < n; ++j) if ((*r)(j, i) != (*a.t)(i, j)) ok2 = false; if (!ok2) fail("trans_into_destination", "value", m * 100 + n, front); else ++n_ok; } }
         volatile T sink = 0;
         VH_GUARDED_CALL(({ sink = norm(*a.t); sink = sum(*a.t); sink = product(*a.t); sink = min(*a.t); sink = max(*a.t); sink = inner(*a.t, *a.t); }), sig);
         if (sig) fail("reductions", "signal", m * 100 + n, front, sig); else ++n_ok;
